@@ -63,7 +63,10 @@ def check_universe(graphs, nodes, values, label=lambda o: repr(o)) -> list[tuple
             if key in seen:
                 bad("I1d", f"{L}.uses() lists ({label(u.node)},{u.idx}) twice")
             seen.add(key)
-            ins = u.node.inputs
+            try:
+                ins = u.node.inputs
+            except AttributeError:
+                continue  # reported as X0
             if not (0 <= u.idx < len(ins)) or ins[u.idx] is not v:
                 bad("I1b", f"{L}.uses() has ({label(u.node)},{u.idx}) but that input is "
                            f"{label(ins[u.idx]) if 0 <= u.idx < len(ins) else 'out of range'}")
@@ -172,7 +175,11 @@ def _dedup(seq):
 
 
 def check_world(w) -> list[tuple[str, str]]:
-    return check_universe(w.graphs, w.nodes, w.values, w.label)
+    broken = getattr(w, "broken", {})
+    out = [("X0", f"{w.label(n)} is reachable from the universe (e.g. through uses()) but is only half constructed: {broken[id(n)]}")
+           for n in w.nodes if id(n) in broken]
+    nodes = [n for n in w.nodes if id(n) not in broken]
+    return out + check_universe(w.graphs, nodes, w.values, w.label)
 
 
 def check_model(model: ir.Model) -> list[tuple[str, str]]:
